@@ -65,6 +65,12 @@ def trace_part(chk, tier):
             nth = {'k': 'nth', 'a': rng.randint(-5, 6), 'b': rng.randint(-6, 8), 'last': rng.random() < 0.5,
                    'oftype': oftype, 'of': of}
             comp = [nth]
+            if rng.random() < 0.25:
+                # a second positional pseudo-class in the same compound (each must hold on its own, in either order)
+                nth2 = {'k': 'nth', 'a': rng.randint(-3, 4), 'b': rng.randint(-4, 6), 'last': rng.random() < 0.5, 'oftype': rng.random() < 0.3, 'of': []}
+                if rng.random() < 0.5:
+                    nth2 = {'k': rng.choice(['first-child', 'last-child', 'only-child', 'first-of-type', 'last-of-type', 'only-of-type'])}
+                comp.insert(rng.choice([0, 1]), nth2)
             if rng.random() < 0.4:
                 comp.insert(0, {'k': 'type', 'ns': gen.BARE, 'name': common.cps(rng.choice(gen.NAMES))})
             cx = {'cs': [comp], 'cb': []}
@@ -76,12 +82,19 @@ def trace_part(chk, tier):
         if k % 4 == 3:
             # siblings in different namespaces and a caller map with a DEFAULT namespace: plain :nth-child() still counts every sibling
             # (the implied "of *|*"), while a type selector in the compound is subject to the default namespace
+            # "the same type" is name AND namespace URI - not the prefix: one URI reached through different prefixes, one prefix (or none)
+            # bound to different URIs on same-named siblings
             for i in els:
                 r = rng.random()
-                d['ns'][i - 1] = common.cps('urn:a') if r < 0.4 else common.cps('urn:b') if r < 0.6 else []
-            nsmap = {'': rng.choice(['urn:a', 'urn:b', 'urn:zz'])}
-            if rng.random() < 0.5:
-                nsmap['p'] = 'urn:b'
+                d['ns'][i - 1] = common.cps('urn:a') if r < 0.4 else common.cps('urn:b') if r < 0.7 else []
+                if d['ns'][i - 1]:
+                    d['pfx'][i - 1] = common.cps(rng.choice(['', '', 'p', 'q']))
+            if k % 8 == 3:
+                nsmap = {'': rng.choice(['urn:a', 'urn:b', 'urn:zz'])}
+                if rng.random() < 0.5:
+                    nsmap['p'] = 'urn:b'
+            else:
+                nsmap = {'p': 'urn:b'}          # no default namespace: the type selectors see every namespace
         jobs.append(('n%d' % k, d, asts, [0] + ([rng.choice(els)] if len(els) > 1 else []), nsmap))
     trace.SPELL_SEED = common.SEED + 2      # the selector texts are random respellings of the generated ASTs
     try:
